@@ -49,7 +49,7 @@ def run(tier):
     ck.cov["rule"] = ("entry points = the table of Untrusted.tla (%d); each with EVERY length 0..2*overhead+64 x {zeros, 0xff, random, valid prefix, valid with one bit flipped, authentic}; "
                       "authentic stream messages with every tag byte 0..255 through classic and object pull; password-hash strings = every single-deviation mutant of PwStr.tla's grammar (x4 renderings) "
                       "plus random strings over the format's alphabet with declared memory <= 1 MiB; outcome classified Ok/Err/Panic (caught unwind, overflow checks on)/Abort (child signal)/HugeAlloc (counting allocator)" % entries)
-    ck.assumptions += ["output buffers sized as the documentation requires (len - overhead); caller-side misuse is not counted",
+    ck.assumptions += ["output buffers are sized after the input (len - overhead) or have a fixed size of the receiver's own (family `fixed`); fixed-length items arrive in typed arrays or in a Vec of any length (family `vecheld`)",
                        "byte strings inside a class are sampled (seeded); lengths, tag bytes and the mutation grammar are exhaustive",
                        "password-hash strings declaring more than 1 MiB are outside the property's bounded-cost clause and skipped"]
     return ck.finish()
